@@ -99,6 +99,7 @@ type Expr struct {
 	RNode *model.NodeSpec `json:"rnode,omitempty"`
 	RPred *model.PredSpec `json:"rpred,omitempty"`
 	RTime *model.TimeSpec `json:"rtime,omitempty"`
+	Swap  bool            `json:"swap,omitempty"` // written `constant op binding`
 	// not / par: A; and / or: A, B
 	A *Expr `json:"a,omitempty"`
 	B *Expr `json:"bb,omitempty"`
@@ -283,6 +284,9 @@ func (e *Expr) String() string {
 			r = FmtPred(*e.RPred)
 		case e.RTime != nil:
 			r = FmtTime(*e.RTime)
+		}
+		if e.Swap {
+			return r + " " + e.Cmp + " " + e.Left
 		}
 		return e.Left + " " + e.Cmp + " " + r
 	case "not":
